@@ -21,6 +21,7 @@ THEOREMS = [
     "RedunModel.C11.never_dropped",
     "RedunModel.C11.submitted_at_most_once",
     "RedunModel.C11.batch_shape",
+    "RedunModel.C11.no_deadlock",
     "RedunModel.C11.monitor_never_fails",
     "RedunModel.C11.count_exact",
     "RedunModel.C11.refuted_keyerror",
